@@ -186,6 +186,7 @@ def run(tier):
     if tier != "quick":
         # independent re-check of the whole development (every Props file and its dependencies) with coqchk
         with common.Lock():
+            common.emit_all_gen()
             common.coq_make(["-k"], timeout=3000)
             okc, axioms, tail = common.coqchk_props()
         rp.obligation("coqchk -o over all compiled Props files: accepted, no axioms beyond the library's primitive integers", okc and not axioms, (str(axioms) + tail)[-300:])
